@@ -312,7 +312,7 @@ int main(int argc, char **argv) {
         remove_dir();
         return rc;
     }
-    int N = prop == 11 ? (thorough ? 10 : 8) : (thorough ? 6 : 4);
+    int N = prop == 11 ? (thorough ? 10 : 8) : (thorough ? 5 : 4);
     int hist_len = thorough ? 5 : 4;
 #ifdef VERIF_ASAN
     N = thorough ? 5 : 4; hist_len = thorough ? 4 : 3;
